@@ -46,10 +46,12 @@ def ref_flatten(tree, inst_name, is_port, inst_flip, inst_role):
 
 
 # ------------------------------------------------------------------------------------------------ real construction
-def build_bundle(h, tree, counter):
+def build_bundle(h, tree, counter, inline_roles=False):
     from hdl21.role import RoleSet
 
     counter[0] += 1
+    if inline_roles:
+        return build_bundle_inline(h, tree, counter)
     b = h.Bundle(name=f"B{counter[0]}")
     b.roles = RoleSet.from_names(["HOST", "DEVICE", "OTHER"])
     for name, kind, width in tree["leaves"]:
@@ -78,6 +80,28 @@ def build_bundle(h, tree, counter):
     return b
 
 
+def build_bundle_inline(h, tree, counter):
+    """The same definition written as a class body whose roles are declared in-line: HOST, DEVICE, OTHER = h.Roles(3)."""
+    host, device, other = h.Roles(3)
+    ns = {"HOST": host, "DEVICE": device, "OTHER": other}
+    for name, kind, width in tree["leaves"]:
+        if kind in ("in", "out", "inout", "port"):
+            ns[name] = {"in": h.Input, "out": h.Output, "inout": h.Inout, "port": h.Port}[kind](width=width)
+        elif kind == "role_hd":
+            ns[name] = h.Signal(width=width, src=host, dest=device)
+        elif kind == "role_dh":
+            ns[name] = h.Signal(width=width, src=device, dest=host)
+        else:
+            ns[name] = h.Signal(width=width)
+    for name, sub, flip, srole in tree["subs"]:
+        sb = build_bundle(h, sub, counter, inline_roles=True)
+        kw = {}
+        if srole:
+            kw["role"] = getattr(sb.roles, srole)
+        ns[name] = mk_flipped(h, sb, flip, kw)
+    return h.bundle(type(f"B{counter[0]}", (), ns))
+
+
 def mk_flipped(h, b, flip, kw):
     if flip == "ctor":
         return b(flipped=True, **kw)
@@ -96,7 +120,8 @@ def _one(item):
     tree, is_port, inst_flip, inst_role, style = item
     want = ref_flatten(tree, "bb", is_port, inst_flip, inst_role)
     try:
-        b = build_bundle(h, tree, [0])
+        # class-style cases also declare their bundles as class bodies with in-line roles, instead of through a RoleSet
+        b = build_bundle(h, tree, [0], inline_roles=(style == "class"))
         kw = dict(port=is_port)
         if inst_role:
             kw["role"] = getattr(b.roles, inst_role)
